@@ -24,7 +24,7 @@ ASSUMPTIONS = [
     'or the whole comparison (U2,U7) is not judged',
     'termination is observed up to a 200k-step reference budget and a 10 s watchdog',
 ]
-BUDGET_S = {'quick': 120, 'thorough': 1200}
+BUDGET_S = {'quick': 300, 'thorough': 1200}
 ACCEPT_FLAGS = {'U2', 'U7', 'U11', 'U12', 'LR'}
 
 
